@@ -23,7 +23,10 @@ _last = {}
 
 
 def oracle(c):
-    d, tracts = parsing.make_plss(c, parse_qq=False)
+    made = parsing.make_plss_or_skip(c, parse_qq=False)
+    if made is None:
+        return []
+    d, tracts = made
     fails = []
     text = c["text"]["text"]
     ctx = parsing.render(c)
